@@ -123,7 +123,8 @@ type jsonUnmarshaler struct {
 // this method calls the appropriate underlying runtime (Gogo vs Google V1 vs Google V2) based on
 // the message's actual type.
 func (m *jsonUnmarshaler) UnmarshalJSON(data []byte) error {
-	if m.msg == nil || reflect.ValueOf(m.msg).IsNil() {
+	value := reflect.ValueOf(m.msg)
+	if m.msg == nil || value.Kind() == reflect.Ptr && value.IsNil() {
 		return fmt.Errorf("cannot unmarshal into nil")
 	}
 
